@@ -211,13 +211,17 @@ Record seccfg := mkCfg {
   sc_mkdir_setmode : bool;   (* Mkdir: trailing setFileMode after the write-locked section *)
   sc_rmall_split : bool;     (* RemoveAll: unregister [W], then one [W] section per key *)
   sc_chmod_split : bool;     (* Chmod: [R] lookup + read mode, setFileMode: [R] lookup, [W] set on THAT node *)
-  sc_chtimes_split : bool    (* Chtimes: [R] lookup, [W] set the time on THAT node *)
+  sc_chtimes_split : bool;   (* Chtimes: [R] lookup, [W] set the time on THAT node *)
+  sc_open_finish : bool;     (* OpenFile: the handle is finished AFTER the locked lookup/creation section:
+                                O_APPEND seek and O_TRUNC truncate of THAT node, one file-mutex section each *)
+  sc_rdnames_split : bool    (* Readdirnames: [dir mutex] fix the list of entries, then read their CURRENT names *)
 }.
 
 Definition ln_cfg_today : seccfg :=
   mkCfg (Z.eqb lin_openfile_split 1) (Z.eqb lin_openfile_setmode 1) (Z.eqb lin_mkdir_setmode 1)
-        (negb (Z.eqb lin_removeall_locks 1)) (negb (Z.eqb lin_chmod_locks 1)) (negb (Z.eqb lin_chtimes_locks 1)).
-Definition ln_cfg_atomic : seccfg := mkCfg false false false false false false.
+        (negb (Z.eqb lin_removeall_locks 1)) (negb (Z.eqb lin_chmod_locks 1)) (negb (Z.eqb lin_chtimes_locks 1))
+        (Z.eqb lin_openfile_finish_outside 1) (Z.eqb lin_readdirnames_outside 1).
+Definition ln_cfg_atomic : seccfg := mkCfg false false false false false false false false.
 
 Inductive lpc :=
 | LnStart
@@ -227,7 +231,10 @@ Inductive lpc :=
 | LnSetMode (name : str) (mode : Z) (ok : res)  (* trailing setFileMode(name, mode) *)
 | LnChmodLookup (name : str) (mode : Z)         (* Chmod: mode computed; setFileMode looks the name up *)
 | LnSetNode (f : nat) (mode : Z)                (* setFileMode: write lock taken, set the mode of node f *)
-| LnSetTime (f : nat) (t : Z).                  (* Chtimes: write lock taken, set the time of node f *)
+| LnSetTime (f : nat) (t : Z)                   (* Chtimes: write lock taken, set the time of node f *)
+| LnOpenSeek (f h : nat)                        (* OpenFile: handle h on node f exists, no lock held; O_APPEND seek next *)
+| LnOpenTrunc (f h : nat)                       (* OpenFile: O_TRUNC truncate of node f through handle h next *)
+| LnRdNames (refs : list nat) (e : option err). (* Readdirnames: the entries are fixed; read their names *)
 
 Definition ln_ret (st : lstate) (slot : option nat) (r : res) : lstate * (lpc + res) :=
   ((fst st, lin_bind (snd st) slot r), inr (lin_proj r)).
@@ -261,18 +268,78 @@ Definition ln_mkdir_locked (k : seccfg) (st : lstate) (c : lop) (p : str) (perm 
     end
   else ln_atomic st c.
 
+(* ---- OpenFile whose handle is finished outside the locked section ([sc_open_finish]) ---- *)
+Definition ln_trunc_wanted (flag : Z) : bool := flag_has flag o_trunc && flag_has flag (Z.lor o_rdwr o_wronly).
+(* what the locked section sees of the flag word: everything but O_APPEND and O_TRUNC *)
+Definition ln_open_flag1 (flag : Z) : Z := Z.land flag (Z.lnot (Z.lor o_append o_trunc)).
+
+(* the next section of an OpenFile that holds handle h on node f; stage 0: nothing finished yet,
+   1: the seek is done *)
+Definition ln_open_next (flag : Z) (f h : nat) (stage : nat) : option lpc :=
+  match stage with
+  | O => if flag_has flag o_append then Some (LnOpenSeek f h)
+         else if ln_trunc_wanted flag then Some (LnOpenTrunc f h) else None
+  | _ => if ln_trunc_wanted flag then Some (LnOpenTrunc f h) else None
+  end.
+
+(* the locked section: lookup / creation (with its mode) and a handle at offset 0 on the file AS
+   IT IS; whether the handle is read-only is decided on the whole flag word *)
+Definition ln_open_locked (st : lstate) (c : lop) (p : str) (flag perm : Z) : lstate * (lpc + res) :=
+  let m := lin_now (fst st) in
+  let '(m2, r) := m_openfile m p (ln_open_flag1 flag) perm in
+  match r with
+  | RHandle h =>
+    match nth_error (mhandles m2) h with
+    | Some hd =>
+      let m3 := set_handle m2 h (mkH (href hd) 0 0 false (Z.eqb (Z.land flag memfs_access_mask) 0)) in
+      match ln_open_next flag (href hd) h 0 with
+      | Some pc => ((m3, snd st), inl pc)
+      | None => ((m3, lin_bind (snd st) (fst c) r), inr (lin_proj r))
+      end
+    | None => ((m2, snd st), inr RPanic)
+    end
+  | _ => ((m2, snd st), inr r)
+  end.
+
+(* ---- Readdirnames whose names are read after the directory's locked section ([sc_rdnames_split]) ----
+   the locked part of File.Readdir: which entries are returned (the selection of [m_readdir]),
+   as node references *)
+Definition ln_rdn_list (s : mst) (i : nat) (count : Z) : mst * (list nat * option err + res) :=
+  match nth_error (mhandles s) i with
+  | None => (s, inr RNoSlot)
+  | Some h =>
+    match get_node s (href h) with
+    | None => (s, inr RPanic)
+    | Some n =>
+      if negb (ndir n) then (s, inr (RErr (EW KNotADir)))
+      else
+        let all := dir_files s n in
+        let rdc := if (zlen all <? hrdc h)%Z then zlen all else hrdc h in
+        let files := skipn (Z.to_nat rdc) all in
+        let len := zlen files in
+        let out := if (0 <? count)%Z then (if (len <? count)%Z then len else count) else len in
+        let e := if ((0 <? count) && (len =? 0))%Z then Some (E KEOF) else None in
+        (set_handle s i (set_rdc h (rdc + out)%Z), inl (firstn (Z.to_nat out) files, e))
+    end
+  end.
+(* FileInfo.Name() of every entry, now *)
+Definition ln_rdn_names (s : mst) (refs : list nat) : list str :=
+  map (fun r => match get_node s r with Some n => fi_name (finfo_of n) | None => [] end) refs.
+
 Definition ln_sec (k : seccfg) (st : lstate) (c : lop) (pc : lpc) : lstate * (lpc + res) :=
   let m := lin_now (fst st) in
   let sl := snd st in
   match pc, snd c with
   (* OpenFile: [R] lookup; with O_CREATE and nothing found: Create [W] (which truncates a file
-     that appeared meanwhile), then the handle is prepared as for an existing file *)
+     that appeared meanwhile), then the handle is prepared as for an existing file (in this older
+     shape the preparation is kept inside the Create section whatever [sc_open_finish] says) *)
   | LnStart, OpenFile p flag perm =>
     if sc_open_split k then
       match lookup m (normalize_path p) with
       | Some _ => ln_atomic st c
       | None => if flag_has flag o_create then (st, inl LnOpenCreate) else (st, inr (RErr (EW KNotExist)))
       end
+    else if sc_open_finish k then ln_open_locked st c p flag perm
     else ln_atomic st c
   | LnOpenCreate, OpenFile p flag perm =>
     let '(m1, _) := m_create m p in
@@ -330,6 +397,35 @@ Definition ln_sec (k : seccfg) (st : lstate) (c : lop) (pc : lpc) : lstate * (lp
       end
     else ln_atomic st c
   | LnSetTime f t, _ => ((upd_node m f (with_mtime t), sl), inr ROk)
+  (* OpenFile finishing its handle outside the locked section: the seek reads the length the file
+     has NOW, the truncate empties THAT node and stamps it, whatever happened to the name since *)
+  | LnOpenSeek f h, OpenFile p flag perm =>
+    let len := match get_node m f with Some n => zlen (ndata n) | None => 0%Z end in
+    let m1 := match nth_error (mhandles m) h with Some hd => set_handle m h (set_at hd len) | None => m end in
+    match ln_open_next flag f h 1 with
+    | Some pc' => ((m1, sl), inl pc')
+    | None => ln_ret (m1, sl) (fst c) (RHandle h)
+    end
+  | LnOpenTrunc f h, OpenFile p flag perm =>
+    match nth_error (mhandles m) h with
+    | Some hd =>
+      if hro hd then ((m, sl), inr (RErr (EW KReadOnlyHandle)))
+      else ln_ret (upd_node m f (fun n => with_mtime (mclock m) (with_data [] n)), sl) (fst c) (RHandle h)
+    | None => ((m, sl), inr RPanic)
+    end
+  (* Readdirnames: [dir mutex] which entries; then FileInfo.Name() of each, as it is by then *)
+  | LnStart, HReaddirnames sn count =>
+    if sc_rdnames_split k then
+      match lslot_get sl sn with
+      | None => (st, inr RNoSlot)
+      | Some h =>
+        match ln_rdn_list m h count with
+        | (m1, inl (refs, e)) => ((m1, sl), inl (LnRdNames refs e))
+        | (m1, inr r) => ((m1, sl), inr r)
+        end
+      end
+    else ln_atomic st c
+  | LnRdNames refs e, _ => (st, inr (RNames (ln_rdn_names m refs) e))
   (* every other method: one critical section *)
   | LnStart, _ => ln_atomic st c
   | _, _ => (st, inr RPanic)
@@ -339,7 +435,8 @@ Definition ln_sec (k : seccfg) (st : lstate) (c : lop) (pc : lpc) : lstate * (lp
    ONE section that is the specification's step *)
 Definition ln_lin_ok (k : seccfg) (o : op) : bool :=
   match o with
-  | OpenFile _ _ _ => negb (sc_open_split k)
+  | OpenFile _ _ _ => negb (sc_open_split k) && negb (sc_open_finish k)
+  | HReaddirnames _ _ => negb (sc_rdnames_split k)
   | Mkdir _ _ | MkdirAll _ _ => negb (sc_mkdir_setmode k)
   | RemoveAll _ => negb (sc_rmall_split k)
   | Chmod _ _ => negb (sc_chmod_split k)
